@@ -68,6 +68,7 @@ func (c *Ctx) ruleStorageAppend() {
 		}
 	}
 	oneItem, addOne, strip, first := false, false, false, false
+	nOldCuts, badCut := 0, false
 	u32 := false
 	eachInstr(f, func(b *ssa.BasicBlock, _ int, in ssa.Instruction) {
 		switch x := in.(type) {
@@ -99,21 +100,40 @@ func (c *Ctx) ruleStorageAppend() {
 				u32 = true
 			}
 		case *ssa.Slice:
-			// currentValue[len(lengthBytes):]
-			if x.Low != nil {
+			// currentValue[len(lengthBytes):] — the OLD value (the bytes handed to Unmarshal) is cut at the length of the
+			// re-encoding of the DECODED length (not of length+1, and not a size computed from the mode bits)
+			if x.Low != nil && sameValue(x.X, um.Call.Args[0]) {
+				nOldCuts++
+				okCut := false
 				if l, ok := lenOf(x.Low); ok {
+					fromDecoded, fromSum := false, false
 					for v := range backwardSlice(l, nil) {
-						if call, ok := v.(*ssa.Call); ok && strings.HasSuffix(calleeName(&call.Call), "pkg/scale.Marshal") {
-							strip = true
+						if v == dst {
+							fromDecoded = true
+						}
+						if call, ok := v.(*ssa.Call); ok && calleeName(&call.Call) == "(*math/big.Int).Add" {
+							fromSum = true
 						}
 					}
+					isMarshal := false
+					for v := range backwardSlice(l, nil) {
+						if call, ok := v.(*ssa.Call); ok && strings.HasSuffix(calleeName(&call.Call), "pkg/scale.Marshal") {
+							isMarshal = true
+						}
+					}
+					okCut = isMarshal && fromDecoded && !fromSum
+				}
+				if okCut {
+					strip = true
+				} else {
+					badCut = true
 				}
 			}
 		}
 	})
 	c.ob("R-APPEND", "storageAppend:error-edge-one-item-list", um.Pos(), oneItem, "when the stored value does not start with a canonical compact length it must be replaced by 0x04 || item")
 	c.ob("R-APPEND", "storageAppend:success-edge-length-plus-one", um.Pos(), addOne, "on success the new length is the decoded length + 1")
-	c.ob("R-APPEND", "storageAppend:strip-canonical-prefix", um.Pos(), strip, "the old prefix stripped from the value is the re-encoded (canonical) length, which equals the consumed prefix only because non-canonical prefixes are rejected")
+	c.ob("R-APPEND", "storageAppend:strip-canonical-prefix", um.Pos(), strip && !badCut && nOldCuts > 0, "the old prefix stripped from the value is the re-encoded (canonical) length, which equals the consumed prefix only because non-canonical prefixes are rejected")
 	c.ob("R-APPEND", "storageAppend:empty-value-one-item", um.Pos(), first, "an absent or empty value becomes a one-item list (length 1)")
 	c.ob("R-APPEND", "storageAppend:u32-bound", um.Pos(), u32, "no check that length+1 still fits in u32: a value starting with the compact u32::MAX is extended to length 2^32 instead of being replaced by a one-item list")
 }
@@ -209,24 +229,83 @@ func (c *Ctx) ruleHostVer() {
 			c.ob("R-HOSTVER", base+"_version_2:success-after-root", v2.Pos(), okSucc, "a pointer is returned only after the root was computed")
 		}
 		if base == "ext_trie_blake2_256_ordered_root" {
-			okKey := false
-			eachInstr(v2, func(_ *ssa.BasicBlock, _ int, in ssa.Instruction) {
-				if call, ok := in.(*ssa.Call); ok && strings.HasSuffix(calleeName(&call.Call), "pkg/scale.Marshal") {
-					if mi, ok := call.Call.Args[0].(*ssa.MakeInterface); ok {
-						if nc, ok := mi.X.(*ssa.Call); ok && calleeName(&nc.Call) == "math/big.NewInt" {
-							// argument is the range index (phi of an induction variable)
-							for v := range backwardSlice(nc.Call.Args[0], nil) {
-								if bo, ok := v.(*ssa.BinOp); ok && bo.Op == token.ADD {
-									if k, ok := constInt(bo.Y); ok && k == 1 {
-										okKey = true
+			// every key stored into an Entry is, on every path, scale.Marshal(big.NewInt(int64(index))) — directly or
+			// through a helper of the package whose every return is; a hand-written fast path is a different encoder
+			var isIdxKey func(v ssa.Value, depth int) bool
+			isIdxKey = func(v ssa.Value, depth int) bool {
+				if depth > 3 {
+					return false
+				}
+				ins := phiInputs(v)
+				if len(ins) == 0 {
+					return false
+				}
+				for _, x := range ins {
+					x = stripConv(x)
+					if u, ok := x.(*ssa.UnOp); ok && u.Op == token.MUL {
+						// a local cell: every value stored into it must qualify
+						if al, ok := u.X.(*ssa.Alloc); ok {
+							n, all := 0, true
+							for _, r := range *al.Referrers() {
+								if st, ok := r.(*ssa.Store); ok && st.Addr == ssa.Value(al) {
+									n++
+									if !isIdxKey(st.Val, depth+1) {
+										all = false
+									}
+								}
+							}
+							if n == 0 || !all {
+								return false
+							}
+							continue
+						}
+					}
+					okOne := false
+					if ex, ok := x.(*ssa.Extract); ok && ex.Index == 0 {
+						if call, ok := ex.Tuple.(*ssa.Call); ok {
+							if strings.HasSuffix(calleeName(&call.Call), "pkg/scale.Marshal") {
+								if mi, ok := call.Call.Args[0].(*ssa.MakeInterface); ok {
+									if nc, ok := mi.X.(*ssa.Call); ok && calleeName(&nc.Call) == "math/big.NewInt" {
+										okOne = true
+									}
+								}
+							} else if g := call.Call.StaticCallee(); g != nil && g.Pkg == v2.Pkg && len(g.Blocks) > 0 {
+								okOne = true
+								for _, r := range returnsOf(g) {
+									if isNilConst(resultOf(r, 0)) {
+										continue // error return
+									}
+									if !isIdxKey(resultOf(r, 0), depth+1) {
+										okOne = false
 									}
 								}
 							}
 						}
 					}
+					if !okOne {
+						return false
+					}
 				}
-			})
-			c.ob("R-HOSTVER", base+"_version_2:keys-are-compact-indices", v2.Pos(), okKey, "ordered-root keys must be the compact encoding of the element index")
+				return true
+			}
+			nKeys, okKey := 0, true
+			for _, g := range withAnon(v2) {
+				eachInstr(g, func(_ *ssa.BasicBlock, _ int, in ssa.Instruction) {
+					st, ok := in.(*ssa.Store)
+					if !ok {
+						return
+					}
+					fa, ok := st.Addr.(*ssa.FieldAddr)
+					if !ok || fieldVar(fa) == nil || fieldVar(fa).Name() != "Key" || !strings.HasSuffix(namedType(fa.X.Type()), "trie.Entry") {
+						return
+					}
+					nKeys++
+					if !isIdxKey(st.Val, 0) {
+						okKey = false
+					}
+				})
+			}
+			c.ob("R-HOSTVER", base+"_version_2:keys-are-compact-indices", v2.Pos(), nKeys > 0 && okKey, "on every path the key of an ordered-root entry must be scale.Marshal(big.NewInt(int64(index))) — the compact encoding of the element index; a hand-written shortcut for small indices is a second encoder that can disagree at a mode boundary (e.g. index 64)")
 		}
 	}
 	rf := c.fn("pkg/trie", "TrieLayout.Root")
